@@ -10,9 +10,9 @@ SPEC = dict(
                "left without a result.",
     level_note="Valid UTF-8 without NUL only (hostile bytes are C10's); all platforms so every entry is eligible for clause (v).",
     engines=[dict(name="fuzzy", shards=T(16, 16), timeout=T(900, 3600))],
-    rule="case = (database, query, threshold, NLP, limit); non-trivial = the lexical answer is empty and the fallback answered; distinct by "
+    rule="case = (database - as loaded, after a same-size replacement through UpdateDatabase, after direct growth -, query, threshold, NLP, limit); non-trivial = the lexical answer is empty and the fallback answered; distinct by "
          "(db, query, threshold, NLP, limit).",
-    floors=T({"lexical-answer-exists": 2000, "fallback-answered": 1500, "fallback-with-threshold": 300, "fallback-empty": 300, "distinct_nontrivial": 1500},
-             {"lexical-answer-exists": 20000, "fallback-answered": 15000, "fallback-with-threshold": 3000, "fallback-empty": 3000, "distinct_nontrivial": 15000}),
+    floors=T({"lexical-answer-exists": 2000, "fallback-answered": 1500, "fallback-with-threshold": 300, "fallback-empty": 300, "fallback-answered-after:same-size-replacement": 150, "fallback-answered-after:append": 150, "distinct_nontrivial": 1500},
+             {"lexical-answer-exists": 20000, "fallback-answered": 15000, "fallback-with-threshold": 3000, "fallback-empty": 3000, "fallback-answered-after:same-size-replacement": 1500, "fallback-answered-after:append": 1500, "distinct_nontrivial": 15000}),
     assumptions=["match quality = the score github.com/sahilm/fuzzy assigns to command + ' ' + description of that single entry"],
 )
